@@ -600,42 +600,70 @@ func (ck *Check) fleetRequest(rule string) {
 	}
 	ck.cond(lifecycle != nil, rule, "fleet/DefaultTargetCapacityType", pos, funcID(fn), "DefaultTargetCapacityType ← String(lifecycle)", fmt.Sprint(spec["DefaultTargetCapacityType"]), "")
 	_ = lifecycleVal
-	// option blocks
-	type optStore struct {
-		st   *ssa.Store
-		flds map[string]*Term
+	// option blocks: each may be stored conditionally as a literal, or unconditionally as a value
+	// that is nil or a literal depending on the lifecycle (φ); both read as guarded cases
+	type optCase struct {
+		guard *Formula
+		flds  map[string]*Term
+		at    ssa.Instruction
 	}
-	stores := map[string]*optStore{}
+	cases := map[string][]optCase{}
 	for _, r := range *lit.Referrers() {
 		if fa, ok := r.(*ssa.FieldAddr); ok {
 			name := fieldOfAddr(fa).Name()
 			if name == "OnDemandOptions" || name == "SpotOptions" {
 				for _, rr := range *fa.Referrers() {
-					if st, ok := rr.(*ssa.Store); ok {
-						stores[name] = &optStore{st, ck.literalFields(ctx, st.Val)}
+					st, ok := rr.(*ssa.Store)
+					if !ok {
+						continue
+					}
+					for _, vc := range ck.valueCases(ctx, FTrue, st.Val, 0) {
+						if vc.term.Kind == "const" && vc.term.Name == "nil" {
+							continue
+						}
+						al, _ := vc.term.Val.(*ssa.Alloc)
+						var flds map[string]*Term
+						if al != nil {
+							flds = ck.literalFields(ctx, al)
+						}
+						cases[name] = append(cases[name], optCase{guard: And(vc.guard, ctx.PC(st)), flds: flds, at: st})
 					}
 				}
 			}
 		}
 	}
-	od, sp := stores["OnDemandOptions"], stores["SpotOptions"]
-	if od == nil || sp == nil || lifecycle == nil {
+	od, sp := cases["OnDemandOptions"], cases["SpotOptions"]
+	if len(od) == 0 || len(sp) == 0 || lifecycle == nil {
 		ck.fail(rule, "fleet/options", pos, funcID(fn), "OnDemandOptions and SpotOptions blocks are set according to the lifecycle", "missing", "")
 	} else {
-		for name, o := range map[string]*optStore{"OnDemandOptions": od, "SpotOptions": sp} {
-			m := o.flds["MinTargetCapacity"]
-			ck.cond(isAwsHelper(m, "Int64") && m.Args[0].Key() == addCount.Key(), rule, "fleet/"+name+"/MinTargetCapacity", ck.P.instrPos(o.st), funcID(fn), "MinTargetCapacity ← Int64(addCount) (all-or-nothing)", fmt.Sprint(m), "a partial fleet is accepted")
-		}
 		isOD := cmpFormula(token.EQL, lifecycle, &Term{Kind: "const", Name: `"on-demand"`})
-		ck.entails(rule, "fleet/OnDemandOptions/guard", od.st, ctx.PC(od.st), isOD, "OnDemandOptions is set only when lifecycle == on-demand")
-		ck.entails(rule, "fleet/SpotOptions/guard", sp.st, ctx.PC(sp.st), Not(isOD), "SpotOptions is set only when lifecycle != on-demand")
+		anySet := FFalse
+		for _, name := range []string{"OnDemandOptions", "SpotOptions"} {
+			for ci, o := range cases[name] {
+				sfx := ""
+				if ci > 0 {
+					sfx = fmt.Sprintf("#%d", ci)
+				}
+				var m *Term
+				if o.flds != nil {
+					m = o.flds["MinTargetCapacity"]
+				}
+				ck.cond(isAwsHelper(m, "Int64") && m.Args[0].Key() == addCount.Key(), rule, "fleet/"+name+"/MinTargetCapacity"+sfx, ck.P.instrPos(o.at), funcID(fn), "MinTargetCapacity ← Int64(addCount) (all-or-nothing)", fmt.Sprint(m), "a partial fleet is accepted")
+				if name == "OnDemandOptions" {
+					ck.entails(rule, "fleet/OnDemandOptions/guard"+sfx, o.at, o.guard, isOD, "OnDemandOptions is set only when lifecycle == on-demand")
+				} else {
+					ck.entails(rule, "fleet/SpotOptions/guard"+sfx, o.at, o.guard, Not(isOD), "SpotOptions is set only when lifecycle != on-demand")
+				}
+				anySet = Or(anySet, o.guard)
+			}
+		}
 		// exactly one of them on every path to the successful return
 		for _, b := range fn.Blocks {
 			if r, ok := b.Instrs[len(b.Instrs)-1].(*ssa.Return); ok {
 				if k, isC := r.Results[0].(*ssa.Const); isC && k.Value == nil {
 					continue // error return
 				}
-				okv, why, err := Entails(ctx.BlockPC(b), Or(ctx.PC(od.st), ctx.PC(sp.st)))
+				okv, why, err := Entails(ctx.BlockPC(b), anySet)
 				if err == nil {
 					ck.cond(okv, rule, "fleet/options/total", ck.P.instrPos(r), funcID(fn), "every successful path sets one of the two option blocks", "", why)
 				}
@@ -1487,6 +1515,25 @@ func checkC19(ck *Check) {
 					over := inst.Args[0]
 					okE = over.Kind == "field" && over.Name == "Instances"
 				}
+				// library search form: Instances[slices.IndexFunc(Instances, func(c) bool { return
+				// instanceToProviderID(c) == node.Spec.ProviderID })].InstanceId
+				if !okE && et.Kind == "field" && et.Name == "InstanceId" && et.Args[0].Kind == "index" && len(et.Args[0].Args) == 2 {
+					list, ix := et.Args[0].Args[0], et.Args[0].Args[1]
+					if list.Kind == "field" && list.Name == "Instances" && ix.Kind == "call" && strings.HasPrefix(ix.Name, "slices.IndexFunc") && len(ix.Args) == 2 && ix.Args[0].Key() == list.Key() {
+						if mc := closureOfTerm(fn, ix.Args[1]); mc != nil {
+							probe := &Term{Kind: "elem", Args: []*Term{list}, ID: "probe"}
+							want := cmpFormula(token.EQL, ck.nodeField(node, "Spec", "ProviderID"), &Term{Kind: "call", Name: funcID(a.AwsInstToProv), Fn: a.AwsInstToProv, Obj: a.AwsInstToProv.Object(), Args: []*Term{probe}})
+							if got := closureResult(ctx, mc, []*Term{probe}); got != nil {
+								if eq, _, _ := Equivalent(got, want); eq {
+									okE2, _, err := ctx.EntailsLinear(vc.guard, []LinFact{{A: zeroTerm(types.Typ[types.Int]), B: ix, K: 0, Text: "0 ≤ position"}})
+									if err == nil && okE2 {
+										continue // the candidate is the element the search matched
+									}
+								}
+							}
+						}
+					}
+				}
 				if okE {
 					match := cmpFormula(token.EQL, ck.nodeField(node, "Spec", "ProviderID"), &Term{Kind: "call", Name: funcID(a.AwsInstToProv), Fn: a.AwsInstToProv, Obj: a.AwsInstToProv.Object(), Args: []*Term{inst}})
 					imp, _, _ := Entails(vc.guard, match)
@@ -2123,4 +2170,56 @@ func (ck *Check) mapCollect(fn *ssa.Function, ctx *Ctx, slice ssa.Value) (*Term,
 		}
 	}
 	return nil, nil, false
+}
+
+// closureOfTerm: the MakeClosure instruction of fn behind a closure term.
+func closureOfTerm(fn *ssa.Function, t *Term) *ssa.MakeClosure {
+	if t == nil || t.Kind != "closure" {
+		return nil
+	}
+	for _, b := range fn.Blocks {
+		for _, in := range b.Instrs {
+			if mc, ok := in.(*ssa.MakeClosure); ok {
+				if f, _ := mc.Fn.(*ssa.Function); f != nil && f == t.Fn {
+					return mc
+				}
+			}
+		}
+	}
+	return nil
+}
+
+// closureResult: the boolean result of calling the closure made by mc with the given argument
+// terms, in ctx's vocabulary: parameters bound to args, captured variables bound to the value they
+// hold where the closure is made (read-only captures).
+func closureResult(ctx *Ctx, mc *ssa.MakeClosure, args []*Term) *Formula {
+	cf, _ := mc.Fn.(*ssa.Function)
+	if cf == nil || cf.Blocks == nil || infoOf(cf).hasLoop || cf.Signature.Results().Len() != 1 || !isBool(cf.Signature.Results().At(0).Type()) {
+		return nil
+	}
+	ch := ctx.child(cf, mc, args)
+	ch.depth = 0
+	pos := infoOf(ctx.fn).pos[mc]
+	for i, fv := range cf.FreeVars {
+		if i >= len(mc.Bindings) {
+			return nil
+		}
+		b := mc.Bindings[i]
+		if al, ok := b.(*ssa.Alloc); ok {
+			if !readOnlyFreeVar(cf, fv) {
+				return nil
+			}
+			var val *Term
+			if ctx.fi.tracked[al] {
+				val = ctx.memAt(al, nil, pos[0], pos[1], al.Type().(*types.Pointer).Elem())
+			}
+			if val == nil {
+				val = &Term{Kind: "deref", Args: []*Term{ctx.Term(al)}}
+			}
+			ch.bind[fv] = &Term{Kind: "unop", Name: "&", Args: []*Term{val}}
+			continue
+		}
+		ch.bind[fv] = ctx.Term(b)
+	}
+	return ch.returnFormula(0)
 }
